@@ -412,7 +412,7 @@ def configs(tier):
     out.append('dtype seed=0')
     lin = ['Toric2DCode(2,3)', 'Planar2DCode(3,2)/XZZX/x', 'RotatedPlanar2DCode(3,3)/XY',
            'Toric3DCode(2,3,2)/XZZX/z', 'RotatedToric3DCode(3,2,2)', 'XCubeCode(2,2,2)',
-           'Color666PlanarCode(2,2)', 'RhombicPlanarCode(2,3,2)/Checkerboard XZZX']
+           'Color666PlanarCode(2,2)', 'RhombicPlanarCode(2,3,2)/Checkerboard_XZZX']
     if tier != 'quick':
         lin = common.code_configs('quick', deformed=True, max_n=120)
     out += [f'linear {c}' for c in lin]
